@@ -57,8 +57,10 @@ impl TomlFormat<'_> {
 }
 
 fn bare_allowed(s: &str) -> bool {
-	s.bytes()
-		.all(|c| matches!(c, b'A'..=b'Z' | b'a'..=b'z' | b'0'..=b'9' | b'_' | b'-'))
+	// A bare key must be non-empty, the empty key is written as ""
+	!s.is_empty()
+		&& s.bytes()
+			.all(|c| matches!(c, b'A'..=b'Z' | b'a'..=b'z' | b'0'..=b'9' | b'_' | b'-'))
 }
 
 fn escape_key_toml_buf(key: &str, buf: &mut String) {
